@@ -97,6 +97,21 @@ def _consumers(f, effs):
     return sched, enq, drops, fwd
 
 
+def _acc_role(P):
+    """role: the queue's byte counter = the field of Buffer that Buffer::enqueue increases by Message::length"""
+    fe = P.fns.get(CH + 'Buffer::enqueue')
+    if fe is not None:
+        for b in sorted(fe.reachable()):
+            for i, st in enumerate(fe.stmts(b)):
+                if st['k'] == 'assign' and st['p']['pr']:
+                    fl = [e for e in st['p']['pr'] if e['k'] == 'field']
+                    if fl and fl[-1].get('adt', '').endswith('channel::Buffer'):
+                        t = fe.expr_rvalue(st['r'], b, i)
+                        if any(x[0] == 'bin' and x[1].startswith('Add') for x in walk(t)) and any(x[0] == 'call' and x[1] == MSG + '::length' for x in walk(t)):
+                            return fl[-1].get('n')
+    return 'acc_bytes'
+
+
 def r1_conservation(ctx):
     ctx.set_rule('C07.R1')
     P = ctx.P
@@ -106,6 +121,8 @@ def r1_conservation(ctx):
         (CH + 'Buffer::enqueue', True),
     ]
     for key, owns in targets:
+        if key == CH + 'ChannelDropBehaviour::handle' and key not in P.fns and P.scope_of(key):
+            continue   # the policy was merged into its caller (send_message), whose conservation is checked above
         f = ctx.anchor(key)
         if not f:
             continue
@@ -152,7 +169,8 @@ def r1_conservation(ctx):
         for s in g.calls():
             if s.name == 'std::mem::drop' and s.argtys and (s.argtys[0] == MSG or s.argtys[0].startswith('(' + MSG)):
                 sites.append(s)
-    allowed = {CH + 'ChannelDropBehaviour::handle', 'des::net::runtime::events::MessageExitingConnection::handle_with_sink'}
+    allowed = {CH + 'ChannelDropBehaviour::handle', 'des::net::runtime::events::MessageExitingConnection::handle_with_sink'} | \
+        {g.key for g in P.scope_of(CH + 'ChannelDropBehaviour::handle')} | {g.key for g in P.scope_of('des::net::runtime::events::MessageExitingConnection::handle_with_sink')}
     ctx.floor('functions with explicit message drops (policy sites)', len({s.fn.key for s in sites}), 2)
     for s in sites:
         ctx.check(s.fn.key in allowed, 'explicit-drop-site:%s' % s.fn.key, 'messages are explicitly dropped only by the channel policy and the inactive-owner transit rule', s.where())
@@ -161,11 +179,17 @@ def r1_conservation(ctx):
 def r2_admission(ctx):
     ctx.set_rule('C07.R2')
     f = ctx.anchor(CH + 'Channel::send_message')
-    h = ctx.anchor(CH + 'ChannelDropBehaviour::handle')
-    if not (f and h):
+    hs = ctx.P.scope_of(CH + 'ChannelDropBehaviour::handle')
+    if not f or not ctx.floor('function applying the drop/queue policy', len(hs), 1):
         return
+    h = hs[0]
+    ACC = _acc_role(ctx.P)
+    POLV = {v['n'] for v in (ctx.P.adts.get(CH + 'ChannelDropBehaviour') or {}).get('variants', [])}
     # policy entered iff busy flag
     pol = f.calls_to(CH + 'ChannelDropBehaviour::handle')
+    if not pol and h is f:
+        # the policy body lives in send_message itself: its effects (enqueue / policy drop) are the policy "call"
+        pol = [s for s in f.calls() if s.name == CH + 'Buffer::enqueue' or (s.name == 'std::mem::drop' and s.argtys and s.argtys[0] == MSG)]
     tx = [s for s in f.calls() if s.callee == SINK_ADD]
     if ctx.floor('policy call in send_message', len(pol), 1) and ctx.floor('schedules in send_message', len(tx), 2):
         def busy_only(atoms, want):
@@ -189,15 +213,23 @@ def r2_admission(ctx):
         effs = path_effects(h, path)
         atoms = [a for _, a in path_atoms(h, path, decs)]
         sched, enq, drops, fwd = _consumers(h, effs)
-        variant = next((a[2] for a in atoms if a[0] == 'is' and a[1] == ('arg', 'self')), None)
+        variant = next((a[2] for a in atoms if a[0] == 'is' and a[1] == ('arg', 'self') and a[2] in POLV), None)
         if variant is None:
-            variant = next((a[2] for a in atoms if a[0] == 'is' and a[1][0] == 'arg'), None)
-        cmps = [a for a in atoms if a[0] == 'cmp']
+            variant = next((a[2] for a in atoms if a[0] == 'is' and a[2] in POLV), None)
+        if variant is None and h is f:
+            n -= 1
+            continue   # a path of send_message that does not consult the policy (idle channel)
+        cmps = [a for a in atoms if a[0] == 'cmp' and any(x[0] == 'call' and x[1] == MSG + '::length' for x in walk(a[2]) ) or
+                (a[0] == 'cmp' and any(x[0] == 'call' and x[1] == MSG + '::length' for x in walk(a[3])))] if h is f else [a for a in atoms if a[0] == 'cmp']
         if variant == 'Drop':
             ctx.check(drops == 1 and enq == 0, 'policy-drop', 'ChannelDropBehaviour::Drop drops the message', h.where_path(path))
         elif variant == 'Queue':
             good = False
             det = [show_atom(a) for a in cmps]
+            # Queue(None): no limit — the message is always enqueued
+            unlimited = any(a[0] == 'is' and a[2] == 'None' and 'as Queue' in show_c(a[1]) for a in atoms)
+            if unlimited and not cmps:
+                good = enq == 1 and drops == 0
             for a in cmps:
                 op, l, r = a[1], a[2], a[3]
                 # normalise to  (acc + len) ? limit
@@ -206,9 +238,10 @@ def r2_admission(ctx):
                     continue
                 summ = l[1] if l[0] == 'field' else l
                 parts = (summ[2], summ[3])
-                has_acc = any(p[0] == 'field' and p[2] == 'acc_bytes' for p in parts)
+                has_acc = any(p[0] == 'field' and p[2] == ACC for p in parts)
                 has_len = any(p[0] == 'call' and p[1] == MSG + '::length' for p in parts)
-                is_lim = any(x[0] == 'call' and x[1].endswith('Option::unwrap_or') for x in walk(r))
+                is_lim = any(x[0] == 'call' and x[1].endswith('Option::unwrap_or') for x in walk(r)) or \
+                    ('as Queue' in show_c(r) and 'as Some' in show_c(r))     # the Some payload of the variant's limit
                 rp = peel(r)
                 if not is_lim and rp[0] == 'phi':
                     # `match limit { Some(b) => b, None => usize::MAX }`
@@ -227,7 +260,8 @@ def r2_admission(ctx):
 def r3_byte_accounting(ctx):
     ctx.set_rule('C07.R3')
     P = ctx.P
-    writers = P.writers_of_field('acc_bytes', CH + 'Buffer')
+    ACC = _acc_role(P)
+    writers = P.writers_of_field(ACC, CH + 'Buffer')
     ok_map = {CH + 'Buffer::enqueue': 'Add', CH + 'Buffer::dequeue': 'Sub'}
     seen = set()
     for f, w, m in writers:
@@ -240,7 +274,7 @@ def r3_byte_accounting(ctx):
             want = ok_map.get(f.key)
             good = want is not None and tt[0] == 'bin' and tt[1].startswith(want) and \
                 any(x[0] == 'call' and x[1] == MSG + '::length' for x in walk(tt)) and \
-                any(x[0] == 'field' and x[2] == 'acc_bytes' for x in walk(tt))
+                any(x[0] == 'field' and x[2] == ACC for x in walk(tt))
             ctx.check(good, 'acc-writer:%s' % f.key, 'the queue byte counter is only adjusted by enqueue (+length) and dequeue (-length)', f.where(b), show(tt))
             if good:
                 seen.add(f.key)
@@ -273,7 +307,12 @@ def r4_idle_path(ctx):
         if not idle:
             continue
         n += 1
-        setb = [e for e in effs if e[0] == 'c' and e[1].name == CH + 'Channel::set_busy_until']
+        # "busy until T": the helper call, or (helper inlined) the two stores busy := true, transmission_finish_time := T
+        setb = [('call', e[2][1]) for e in effs if e[0] == 'c' and e[1].name == CH + 'Channel::set_busy_until']
+        w_busy = [e for e in effs if e[0] == 'w' and e[2] == 'busy' and e[4] is not None and peel(e[4]) == ('int', 1)]
+        w_fin = [e for e in effs if e[0] == 'w' and e[2] == 'transmission_finish_time']
+        if not setb and len(w_busy) == 1 and len(w_fin) == 1:
+            setb = [('stores', w_fin[0][4])]
         unb = [e for e in effs if e[0] == 'c' and e[1].callee == SINK_ADD and any(x[0] == 'agg' and 'ChannelUnbusyNotif' in x[1] for x in walk(e[2][1]))]
         ex = [e for e in effs if e[0] == 'c' and e[1].callee == SINK_ADD and any(x[0] == 'agg' and 'MessageExitingConnection' in x[1] for x in walk(e[2][1]))]
         # busy != 0 decision
@@ -282,7 +321,7 @@ def r4_idle_path(ctx):
         if nonzero:
             ok = len(setb) == 1 and len(unb) == 1
             if ok:
-                t1 = peel(setb[0][2][1]); t2 = peel(unb[0][2][2])
+                t1 = peel(setb[0][1]); t2 = peel(unb[0][2][2])
                 ok = canon(t1) == canon(t2) and NOWADD(t1, CH + 'ChannelMetrics::calculate_busy')
             ctx.check(ok, 'busy-until-pairing', 'a non-zero transmission time marks the channel busy until T and schedules the unbusy notification at the same T = now + calculate_busy',
                       f.where_path(path), {'set_busy': len(setb), 'unbusy_notifs': len(unb)})
@@ -294,7 +333,7 @@ def r4_idle_path(ctx):
             ok = NOWADD(t, CH + 'ChannelMetrics::calculate_duration')
         ctx.check(ok, 'exit-scheduled', 'every accepted transmission schedules exactly one exit event at now + calculate_duration', f.where_path(path))
     ctx.floor('idle paths of send_message', n, 2)
-    g = ctx.anchor(CH + 'Channel::set_busy_until')
+    g = ctx.P.fns.get(CH + 'Channel::set_busy_until')   # may have been inlined into send_message (handled above)
     if g:
         wb = g.writes_to_field('busy'); wt = g.writes_to_field('transmission_finish_time')
         ctx.check(len(wb) == 1 and len(wt) == 1, 'set-busy-until', 'set_busy_until sets the busy flag and the finish time', g.where())
@@ -336,6 +375,13 @@ def r5_unbusy(ctx):
     ctx.check(bool(cs), 'unbusy-handler', 'the unbusy notification handler calls Channel::unbusy', None, sorted(cs))
 
 
+def _uncast(t):
+    t = peel(t)
+    while t[0] == 'cast':
+        t = peel(t[2])
+    return t
+
+
 def r6_duration(ctx):
     ctx.set_rule('C07.R6')
     f = ctx.anchor(CH + 'ChannelMetrics::calculate_duration')
@@ -346,10 +392,13 @@ def r6_duration(ctx):
         if outcome != 'return':
             continue
         n += 1
-        t = path_ret(f, path)
+        t = path_ret_resolved(f, path)
         lat = any(x[0] == 'field' and x[2] == 'latency' for x in walk(t))
-        busy = any(x[0] == 'call' and x[1] == CH + 'ChannelMetrics::calculate_busy' for x in walk(t))
         atoms = [a for _, a in path_atoms(f, path, decs)]
+        # the transmission time: calculate_busy(msg), or its formula when that helper was merged in (len*8/bitrate; ZERO when bitrate == 0)
+        busy = any(x[0] == 'call' and x[1] == CH + 'ChannelMetrics::calculate_busy' for x in walk(t)) or \
+            (any(x[0] == 'call' and x[1] == MSG + '::length' for x in walk(t)) and any(x[0] == 'field' and x[2] == 'bitrate' for x in walk(t))) or \
+            ('Duration::ZERO' in show(t) and any(a[0] == 'cmp' and a[1] == 'eq' and a[3] == ('int', 0) and any(x[0] == 'field' and x[2] == 'bitrate' for x in walk(a[2])) for a in atoms))
         jz = [a for a in atoms if a[0] == 'cmp' and any(x[0] == 'field' and x[2] == 'jitter' for x in walk(a[2]))]
         zero = any(a[1] == 'eq' for a in jz)
         if zero:
@@ -359,7 +408,7 @@ def r6_duration(ctx):
             ok = lat and busy and bool(smp)
             if ok:
                 u = [x for x in walk(smp[0]) if x[0] == 'call' and x[1] == 'rand::distr::Uniform::new']
-                ok = bool(u) and any(x[0] == 'field' and x[2] == 'jitter' for x in walk(u[0][2][1])) and '0' in show(u[0][2][0]) and peel(smp[0][2][0])[0] == 'arg'
+                ok = bool(u) and any(x[0] == 'field' and x[2] == 'jitter' for x in walk(u[0][2][1])) and '0' in show(u[0][2][0]) and _uncast(smp[0][2][0])[0] == 'arg'
             ctx.check(ok, 'duration-jitter', 'with jitter the delay is latency + transmission time + a draw from Uniform(0, jitter) of the passed RNG', f.where_path(path), show(t)[:300])
     ctx.floor('paths of calculate_duration', n, 2)
 
@@ -377,7 +426,7 @@ def r7_busy_formula(ctx):
         n += 1
         atoms = [a for _, a in path_atoms(f, path, decs)]
         zero = any(a[0] == 'cmp' and a[1] == 'eq' and any(x[0] == 'field' and x[2] == 'bitrate' for x in walk(a[2])) and a[3] == ('int', 0) for a in atoms)
-        r = path_ret(f, path)
+        r = path_ret_resolved(f, path)
         if zero:
             ctx.check(r is not None and 'ZERO' in show(r), 'busy-zero-bitrate', 'a channel without bitrate has zero transmission time', f.where_path(path), show(r) if r else None)
             continue
